@@ -280,6 +280,22 @@ func doSet(pj *simdjson.ParsedJson, roots []*ref.Value, l Loc, op setOp, route i
 	if d := before.same(pj); d != "" {
 		return fmt.Sprintf("%s on a %v value returned an error but changed the document: %s", op, cur.K, d), false
 	}
+	// "changes nothing" includes the iterator the refused call went through: it still rests on the
+	// same value and reads it like before (a caller that gets the error carries on with it)
+	if it.Type() != kindType(cur) {
+		return fmt.Sprintf("after the refused %s the iterator reports type %v, the value is still a %v", op, it.Type(), cur.K), false
+	}
+	var got *ref.Value
+	var rerr error
+	if p := walk.Guard(func() error { got, rerr = walk.AdvValue(it); return nil }); p != nil {
+		rerr = p
+	}
+	if rerr != nil {
+		return fmt.Sprintf("after the refused %s on a %v value the same iterator cannot read the value any more: %v", op, cur.K, rerr), false
+	}
+	if d := ref.Diff(cur, got); d != "" {
+		return fmt.Sprintf("after the refused %s on a %v value the same iterator reads something else: %s", op, cur.K, d), false
+	}
 	return "", false
 }
 
